@@ -1739,18 +1739,33 @@ Proof.
   split; vm_compute; reflexivity.
 Qed.
 
+From Amgcl Require Import AmgBlockCycleSym2Ilu.
+(* ILU(0) over non-commuting values: the sweep  tmp = rhs - A x; solve(tmp); x = w * tmp + x  is consistent whatever the
+   factors are, and apply_pre = apply_post is self-adjoint as soon as the triangular solve operator N = ilu_solve L U D is
+   hermitian with respect to ipH and the damping is central and hermitian: the hypothesis good5 (R5Ilu0 w) A of
+   C02_apply_symmetric_blocks_full is reduced to that ONE statement about the factors (AmgBlockCycleSym2Ilu.v) *)
+Theorem C02_ilu0_symmetry_condition_blocks {S : Scalar} (Hnc : ncring_theory S) (Seqb : seqb_spec S)
+  (adj_mul : forall a b : S, sadj (a * b) = sadj b * sadj a) (w : S) (A L U : crs S) (D : vec S) :
+  wf A = true -> ilu0 A (vzero (nrows A)) = Ok (L, U, D) ->
+  sadj w = w -> (forall c : S, w * c = c * w) ->
+  (forall f g, length f = nrows A -> length g = nrows A ->
+     ipH (nrows A) (ilu_solve L U D f) g = ipH (nrows A) f (ilu_solve L U D g)) ->
+  good5 (R5Ilu0 w) A.
+Proof. exact (ilu0_good5 Hnc Seqb adj_mul w A L U D). Qed.
+Print Assumptions C02_ilu0_symmetry_condition_blocks.
+
 (* FULL STATEMENT (unproved part), as it stands now.  Same statement as in the comment above.
    PROVED: every k = npre = npost >= 0, every ncycle, every pre_cycles >= 1 (pre_cycles > 1 needs a hierarchy that is
    not a single direct-solver level), smoothers damped_jacobi, spai0 (diag_good) and gauss_seidel (gs_diag_okH:
    stored diagonal block = dense diagonal block, invertible on both sides), for hierarchies of amg_init
    (C02_apply_symmetric_blocks_full / _gs / _Qc) and for any hierarchy satisfying hier_herm / hier_hermk
    (C02_apply_symmetric_nc_full).
-   NOT proved: (a') for ilu0 and chebyshev the three facts  sweep_consH pre, sweep_consH post, sweep_adjH pre post  on every
-   level matrix are the HYPOTHESIS good5 (R5Ilu0 w) A / good5 (R5Cheby ..) A = sweep_triple A (mk_relax5 k A).
-   What would discharge it for the model: ilu_sweep is x + w N (f - A x) with N = (D^-1 + U)^-1 (I + L)^-1 (right-linear:
-   AmgBlockCycleLin.v), so consistency is its additivity; self-adjointness needs, for a hermitian block matrix with
-   symmetric pattern, the factor relation U = D^-1 L^H and D^H = D of the IKJ elimination of Ilu.ilu0 over a
-   non-commutative ring (so that (I + L)(D^-1 + U) = (I + L) D^-1 (I + L)^H) and w central hermitian -- not formalised;
+   NOT proved: (a') for ilu0: consistency of the sweep is proved and good5 (R5Ilu0 w) A is reduced to the hermitian-ness of
+   the triangular solve operator, <N f, g> = <f, N g> for N = ilu_solve L U D = (D^-1 + U)^-1 (I + L)^-1, with w central and
+   hermitian (C02_ilu0_symmetry_condition_blocks); that statement itself needs, for a hermitian block matrix with symmetric
+   pattern, the factor relation U = D^-1 L^H and D^H = D of the IKJ elimination of Ilu.ilu0 over a non-commutative ring
+   (so that (I + L)(D^-1 + U) = (I + L) D^-1 (I + L)^H) -- not formalised, it stays a hypothesis;
+   for chebyshev good5 (R5Cheby ..) A = sweep_triple A (mk_relax5 k A) (consistency of pre and post, adjointness) is a hypothesis;
    Chebyshev: p(A) M with M the hermitian scaled diagonal is self-adjoint in the M^-1-weighted sense only when the
    scaling commutes with A, for scale = false it is a polynomial in the hermitian A (coefficients embedded reals).
    (c) solve_symH for mk_solve_block stays a hypothesis when direct_coarse = true.
